@@ -9,10 +9,20 @@
    [out] has the nesting of [src] and every innermost table is replaced by the query's result on it.
    [leaves]: every level flattened.  [converges ctx s rows out]: for every sufficiently large fuel the
    interpreter returns [out] for [s] over the resolved rows [rows]; [stmt_converges]: the same for a
-   whole statement, FROM resolution included. *)
+   whole statement, FROM resolution included.
+
+   Selector sources (section "a FROM that is a selector", proofs in Proofs/C08Sel.v).  [FSel a ""]: the table
+   name is the text of the selector [a] (brackets, keep=>, each, ranges, pipes, `::`, fn=>); the engine model
+   resolves it with the C09 reader model.  [sel_sem top_level a doc]: the README denotation of [a]
+   (Spec/SelectorSpec.v); [wf_sel]: the documented grammar; [sel_src_ok ctes a]: the first step of [a] is a
+   key (or a pipe over keys) of the document that is neither `<-` nor a registered CTE; [mixed a]: a::mix=> ;
+   [mix_first steps]: mix=>steps.  The theorems about resolved rows (C08_copy_preserves … C08_mix_concat)
+   do not mention the FROM clause: they hold for a query with any FROM, [FSel] included. *)
 From Coq Require Import Floats.
 From GenqlV Require Import Base.Prelude Base.Fmt Base.Value Model.Ast Model.Like Model.Num Model.Eval Model.Exec.
 From GenqlV Require Import Spec.NestedSpec Proofs.C08Lemmas Proofs.C08Examples Run.EngineRun.
+From GenqlV Require Model.SelReader Spec.SelectorSpec.
+From GenqlV Require Import Proofs.C08Sel.
 
 (* what the per-dimension copy carries (every clause run_select consults) and what it drops *)
 Theorem C08_copy_preserves : forall s,
@@ -118,6 +128,48 @@ Theorem C08_nested_and_mix_statements : forall call join ctx s k rest src out,
 Proof. exact nested_and_mix_statements. Qed.
 Print Assumptions C08_nested_and_mix_statements.
 
+(* ---------------- a FROM that is a selector ---------------- *)
+
+(* the source rows of FROM `sel` are what ExecReader resolves the text to (C09 model), for ANY selector text the
+   guard admits: no alias, the result an array *)
+Theorem C08_selector_source_rows : forall rec join ctx a src,
+  sel_visible (c_ctes ctx) (SelectorSpec.print_sel a) = true ->
+  SelReader.exec_reader (VObj (c_data ctx)) (SelectorSpec.print_sel a) = Ok (VArr src) ->
+  build_from rec join ctx (FSel a "") = Ok (Some src).
+Proof. exact build_from_sel. Qed.
+Print Assumptions C08_selector_source_rows.
+
+(* the property for a selector source: FROM `sel` gives the nested result [out] over the array of arrays the
+   selector DENOTES, FROM `sel::mix=>` gives the leaves of [out] *)
+Theorem C08_selector_source_statements : forall call join ctx s a src out,
+  simple s = true -> plain_query s = true ->
+  s_with s = [] -> s_from s = FSel a "" ->
+  SelectorSpec.wf_sel a = true -> SelectorSpec.print_sel a <> "dual"%string ->
+  sel_src_ok (c_ctes ctx) a = true ->
+  SelectorSpec.sel_sem SelReader.top_level a (VObj (c_data ctx)) = Ok (VArr src) ->
+  nested_result (converges call join ctx s) src out ->
+  stmt_converges call join ctx (SSelect s) out /\
+  stmt_converges call join ctx (SSelect (with_from (FSel (mixed a) "") s)) (VArr (leaves out)).
+Proof. exact selector_source_statements. Qed.
+Print Assumptions C08_selector_source_statements.
+
+(* the function written on the selector itself: FROM `mix=>steps` gives the leaves of what FROM `steps` gives *)
+Theorem C08_selector_mix_first_statement : forall call join ctx s steps src out,
+  simple s = true -> plain_query s = true ->
+  s_with s = [] ->
+  SelectorSpec.wf_sel (SelectorSpec.Path steps) = true ->
+  sel_src_ok (c_ctes ctx) (SelectorSpec.Path steps) = true ->
+  SelectorSpec.sel_sem SelReader.top_level (SelectorSpec.Path steps) (VObj (c_data ctx)) = Ok (VArr src) ->
+  nested_result (converges call join ctx s) src out ->
+  stmt_converges call join ctx (SSelect (with_from (FSel (mix_first steps) "") s)) (VArr (leaves out)).
+Proof. exact selector_mix_first_statement. Qed.
+Print Assumptions C08_selector_mix_first_statement.
+
+(* the two models of MixArray (engine model, C09 reader model) are one function *)
+Theorem C08_selector_mix_agrees : forall l, SelReader.mix_array l = mix_array (VArr l).
+Proof. exact sel_mix_array. Qed.
+Print Assumptions C08_selector_mix_agrees.
+
 (* the repaired defect (D18): a copy that carries HAVING in the WHERE slot drops the filter below the
    first dimension *)
 Theorem C08_pinned_copy_refuted :
@@ -152,3 +204,22 @@ Example C08_ex_statements_converge :
   stmt_converges no_call no_join ex_ctx (SSelect ex_q) (VArr g_out) /\
   stmt_converges no_call no_join ex_ctx (SSelect ex_q_mix) (VArr (leaves (VArr g_out))).
 Proof. exact statements_converge. Qed.
+
+(* g[keep=>(0:2)] = [[t1, []], [t3]] : the same query over a selector source, flattened both ways *)
+Example C08_ex_selector_in_scope :
+  simple ex_q_sel = true /\ plain_query ex_q_sel = true /\ SelectorSpec.wf_sel ex_sel = true /\
+  sel_src_ok (c_ctes ex_ctx) ex_sel = true /\
+  SelectorSpec.sel_sem SelReader.top_level ex_sel (VObj (c_data ex_ctx)) = Ok (VArr sel_src).
+Proof. exact sel_in_scope. Qed.
+
+Example C08_ex_selector_runs :
+  run_model (false, ex_doc, SSelect ex_q_sel) = Ok sel_out /\
+  run_model (false, ex_doc, SSelect ex_q_sel_mixed) = Ok (leaves (VArr sel_out)) /\
+  run_model (false, ex_doc, SSelect ex_q_sel_mix_first) = Ok (leaves (VArr sel_out)).
+Proof. split; [exact sel_nested_runs|]. destruct sel_mix_runs as (H1 & H2 & _). split; assumption. Qed.
+
+Example C08_ex_selector_statements_converge :
+  stmt_converges no_call no_join ex_ctx (SSelect ex_q_sel) (VArr sel_out) /\
+  stmt_converges no_call no_join ex_ctx (SSelect ex_q_sel_mixed) (VArr (leaves (VArr sel_out))) /\
+  stmt_converges no_call no_join ex_ctx (SSelect ex_q_sel_mix_first) (VArr (leaves (VArr sel_out))).
+Proof. exact sel_statements_converge. Qed.
